@@ -718,6 +718,15 @@ impl SimChain {
         }
     }
 
+    /// The node's RPC as seen by an out-of-process caller (conformance runs against the real teosd).
+    pub fn rpc_pub(&mut self, method: &str, params: &serde_json::Value) -> Result<serde_json::Value, (i32, String)> {
+        match self.rpc(method, params) {
+            Ok(v) => Ok(v),
+            Err(RpcFailure::Rpc(c, m)) => Err((c, m)),
+            Err(RpcFailure::Transport) => Err((-28, "unreachable".into())),
+        }
+    }
+
     // ---- block source --------------------------------------------------------------------
 
     fn src_call(&mut self) -> Result<(), BlockSourceError> {
